@@ -47,8 +47,8 @@ man = {
     'setup_cmd': './check build-all',
     'hooks': {
         'guard': '--cfg fuel_core_verif',
-        'enable': 'RUSTFLAGS="--cfg fuel_core_verif --cfg tokio_unstable" via /verif/sim/.cargo/config.toml (harness build only, target dir /verif/target)',
-        'baseline_off_cmd': 'cd /repo && CARGO_NET_OFFLINE=true cargo nextest run --workspace --no-fail-fast --tool-config-file pb:/w/lib/nextest.toml --profile pb --test-threads 8 --offline  (fallback: CARGO_NET_OFFLINE=true cargo test --workspace --no-fail-fast --offline); the guard is a --cfg that only /verif/sim/.cargo/config.toml sets, so a plain build of /repo has it off',
+        'enable': 'RUSTFLAGS="--cfg fuel_core_verif --cfg tokio_unstable" via /verif/sim/.cargo/config.toml (harness build only, target dir /verif/target); nothing else sets the cfg, so a plain build or test run of /repo has the guard off',
+        'baseline_off_cmd': 'cd /repo && CARGO_NET_OFFLINE=true cargo nextest run --workspace --no-fail-fast --tool-config-file pb:/w/lib/nextest.toml --profile pb --test-threads 8 --offline',
         'source_commits': [l.split()[0] for l in __import__('subprocess').run('git -C /repo log --format="%h %s" --grep "^verif hook"', shell=True, capture_output=True, text=True).stdout.splitlines()],
         'add_only': True,
     },
